@@ -13,13 +13,34 @@ import (
 	verif "github.com/uber/kraken/zzverif"
 )
 
-// verifD is the claimed name of every write in these harnesses: one fixed,
-// well-formed digest. SHA-256 of symbolic bytes is an uninterpreted function,
-// so whether the written bytes hash to verifD is the solver's choice and both
-// outcomes are explored.
-var verifD = "3a7bd3e2360a3d29eea436fcfb7e44c735d117c42d1c1835420b6b9942dd4f1b"
+// verifD is the claimed name of every write in a harness run and verifGood the
+// one content that really hashes to it (a prefix of "abcd" of chosen length,
+// digest computed with the real SHA-256). Symbolic written bytes hash through
+// an uninterpreted function, so "these bytes hash to verifD" is the solver's
+// choice; verifMatches ties that choice to collision freeness (bytes that hash
+// to verifD are verifGood), which keeps every counterexample natively
+// reproducible.
+var (
+	verifD    string
+	verifGood []byte
+)
+
+func verifPickName() {
+	k := verif.Len("good-len", 0, verif.Bound("blob-len", 2, 4))
+	verifGood = []byte("abcd"[:k])
+	d, err := core.NewDigester().FromBytes(verifGood)
+	if err != nil {
+		panic(err)
+	}
+	verifD = d.Hex()
+	verif.Note("SHA-256 collision freeness assumed for the name under test: bytes hashing to it equal the reference content")
+}
 
 func verifCAS(mem bool, maxSize uint64) *CAStore {
+	// The drain and TTL workers only wait on tickers that never fire; the
+	// harnesses call drainNext themselves at chosen positions, so no
+	// preemptive switches to those goroutines are explored.
+	verif.Option("max_preempt", 0)
 	root := filepath.Join(verif.TempDir(), "c01")
 	cas, err := newCAStore(CAStoreConfig{
 		UploadDir:     filepath.Join(root, "upload"),
@@ -42,7 +63,9 @@ func verifMatches(b []byte) bool {
 	if err != nil {
 		panic(err)
 	}
-	return d.Hex() == verifD
+	m := d.Hex() == verifD
+	verif.Assume(verif.Implies(m, bytes.Equal(b, verifGood)))
+	return m
 }
 
 // verifReaders checks every read API of the store for name verifD: whatever
@@ -172,6 +195,7 @@ func verifWriteAndCheck(cas *CAStore, path int, b verifBlob) {
 // and what becomes visible (bytes, size, metainfo, listing) describes bytes
 // that hash to the name.
 func VerifDiskWritePaths() {
+	verifPickName()
 	path := verif.Choice("path", 3)
 	b := verifSymBlob("", path)
 	verifWriteAndCheck(verifCAS(false, 0), path, b)
@@ -180,6 +204,7 @@ func VerifDiskWritePaths() {
 // VerifMemCacheFullFallsBackToDisk: memory cache enabled but without room for
 // the claimed size: the refresh goes through the verified disk path.
 func VerifMemCacheFullFallsBackToDisk() {
+	verifPickName()
 	b := verifSymBlob("", 2)
 	maxSize := verif.Uint64("max-size")
 	verif.Assume(maxSize < b.size)
@@ -191,12 +216,9 @@ func VerifMemCacheFullFallsBackToDisk() {
 // VerifSecondWriteKeepsName: a correct blob is cached; any further write under
 // the same name, through any path, leaves the readable content hashing to it.
 func VerifSecondWriteKeepsName() {
-	good := []byte("ab")
-	d, err := core.NewDigester().FromBytes(good)
-	if err != nil {
-		panic(err)
-	}
-	verifD = d.Hex()
+	verifPickName()
+	good := verifGood
+	var err error
 	mem := verif.Choice("mem", 2) == 1
 	cas := verifCAS(mem, 8)
 	if err := cas.CreateCacheFile(verifD, bytes.NewReader(good)); err != nil {
@@ -204,6 +226,11 @@ func VerifSecondWriteKeepsName() {
 	}
 	path := verif.Choice("path", 3)
 	b := verifSymBlob("second-", path)
+	if mem && path == 2 {
+		// the unverified memory write-through path is a recorded finding
+		// (VerifFindingMemoryPathUnverified)
+		verif.Assume(verifMatches(b.data))
+	}
 	verif.Assert("first-visible", verifReaders(cas, 0))
 	err = verifWrite(cas, path, b.data, b.size, b.pieceLength)
 	verif.Cover("second-write-error", err != nil)
@@ -214,3 +241,46 @@ func VerifSecondWriteKeepsName() {
 		verif.Assert("still-visible-after-drain", verifReaders(cas, 0))
 	}
 }
+
+// verifMemRefresh runs one backend refresh through the memory write-through
+// path (room for the claimed size) with reads before, between and after a
+// chosen number of drain steps.
+func verifMemRefresh(onlyMatching bool) {
+	verifPickName()
+	b := verifSymBlob("", 2)
+	if onlyMatching {
+		// mismatching bytes on this path are a recorded finding
+		// (VerifFindingMemoryPathUnverified)
+		verif.Assume(verifMatches(b.data))
+	}
+	cas := verifCAS(true, uint64(verif.Bound("blob-len", 2, 4)))
+	matches := verifMatches(b.data)
+	err := verifWrite(cas, 2, b.data, b.size, b.pieceLength)
+	verif.Cover("in-memory", err == nil && cas.CheckInMemCache(verifD))
+	if err == nil {
+		verif.Assert("accepted-write-matches-name", matches)
+		verif.Assert("accepted-write-is-visible", verifReaders(cas, b.pieceLength))
+	} else {
+		verif.Assert("rejected-write-leaves-nothing-visible", !verifReaders(cas, b.pieceLength))
+	}
+	drains := verif.Len("drains", 0, 2)
+	for i := 0; i < drains; i++ {
+		cas.drainNext()
+		vis := verifReaders(cas, b.pieceLength)
+		if err == nil {
+			verif.Assert("still-visible-after-drain", vis)
+		}
+	}
+	if drains > 0 {
+		verif.Cover("drained-to-disk", err == nil && !cas.CheckInMemCache(verifD))
+	}
+}
+
+// VerifMemoryPathMatching: refresh through the memory cache with bytes that
+// hash to the name: bytes, size and metainfo served from memory and, after the
+// drain, from disk describe the same content.
+func VerifMemoryPathMatching() { verifMemRefresh(true) }
+
+// VerifFindingMemoryPathUnverified: the same with arbitrary bytes
+// (FINDINGS.md): mismatching bytes are served from memory until the drain.
+func VerifFindingMemoryPathUnverified() { verifMemRefresh(false) }
